@@ -486,15 +486,31 @@ package lua
 //@ assert@"parent.Panic(L)" L.wrapped && L.G.CurrentThread == parent && L.Parent == nil && L.Dead && top(L) >= 1 && L.reg.array[top(L) - 1] == lv
 //@ modifies everything
 
-// LState.Resume (Go API), verified from the call of threadRun onwards: the values delivered by the coroutine are collected
-// and the resumer's own stack is restored to what it was before the resume on EVERY outcome (ok, yield, error)
+// LState.Resume (Go API): like coroutine.resume, a coroutine that is running, dead or normal is refused (threadRun is not
+// reached: the assertion in front of "th.Parent = ls"); a coroutine that is resumed AGAIN receives the values in order and
+// its pending yield call finds the number of results it asked for (finishYield); the values delivered by the coroutine are
+// collected and the resumer's own stack is restored to what it was before the resume on EVERY outcome (ok, yield, error).
+// The set-up of a FIRST resume (frame initialisation through initCallFrame) is cut here as in coResume.
 //@ func (*LState).Resume [C06]
-//@ from@"top := ls.GetTop()" ls != nil && th != nil && th != ls && th.Parent == ls && Inv_api(ls) && ls.G != nil && (ls.currentFrame != nil ==> ls.currentFrame.Fn != nil) && th.stack != nil && $inv(th.stack)
+// the API is called on the running state (NewState: CurrentThread = the main state; every switch keeps it), the coroutine
+// is a different state of the same Global with its own registry and call stack (NewThread), representation facts assumed
+//@ requires ls != nil && th != nil && ls.G != nil && th.G == ls.G && ls.G.CurrentThread == ls && Inv_api(ls) && (ls.currentFrame != nil ==> ls.currentFrame.Fn != nil)
+//@ requires Inv_api(th) && frameOK(th) && th.stack != nil && $inv(th.stack) && $sp(th.stack) < $cap(th.stack) && offset(args) == 0 && arrid(args) != arrid(th.reg.array) && arrid(args) != arrid(ls.reg.array)
+//@ requires th != ls ==> th.reg != ls.reg && arrid(th.reg.array) != arrid(ls.reg.array) && th.currentFrame != ls.currentFrame
+//@ assert@"th.Parent = ls" !th.Dead && ls.G.CurrentThread != th && !ancestor(ls.G.CurrentThread, th) && th != ls
+//@ cut@"cf := th.stack.Last()" the FIRST resume of a coroutine (frame set-up through initCallFrame) is not verified here; its pieces are (Push, initCallFrame)
+//@ let@"th.finishYield(len(args))" tt0 = old(top(th))
+//@ assert@"th.finishYield(len(args))" top(th) == tt0 + len(args) && (forall k int :: 0 <= k && k < len(args) ==> th.reg.array[tt0 + k] == args[k])
+//@ assert@"threadRun(th)" th.Parent == ls && ls.G.CurrentThread == th
+//@ assert@"threadRun(th)" old(pendingFixedCall(th)) ==> top(th) == old(top(th) + yieldWant(th)) && (forall k int :: 0 <= k && k < old(yieldWant(th)) ==> th.reg.array[old(top(th)) + k] == ite(k < len(args), args[k], LNil))
 //@ let@"threadRun(th)" t0 = top(ls)
 //@ let@"threadRun(th)" b0 = base(ls)
-//@ ensures  "resumer-stack-restored": top(ls) == t0 && base(ls) == b0
+//@ ensures  "never-resumed": old(th.Dead || ls.G.CurrentThread == th || ancestor(ls.G.CurrentThread, th)) ==> ncalls() == old(ncalls()) && result0 == ResumeError && result1 != nil && ls.G.CurrentThread == old(ls.G.CurrentThread) && th.Parent == old(th.Parent)
+//@ ensures  "resumer-stack-restored": !old(th.Dead || ls.G.CurrentThread == th || ancestor(ls.G.CurrentThread, th)) ==> top(ls) == t0 && base(ls) == b0
 //@ ensures  "error-or-values": (result0 == ResumeError ==> result1 != nil) && (result0 != ResumeError ==> result1 == nil && len(result2) >= 1)
 //@ modifies everything
+//@ loop 2 invariant arrid(args) != arrid(th.reg.array) && th != ls && Inv_api(th) && Inv_api(ls) && frameOK(th) && th.Parent == ls && ls.G == old(ls.G) && ls.G.CurrentThread == th && th.currentFrame == old(th.currentFrame) && th.currentFrame != nil && th.reg == old(th.reg) && ls.reg == old(ls.reg) && ls.currentFrame == old(ls.currentFrame) && base(th) == old(base(th)) && 0 <= rangei && rangei <= len(args) && top(th) == old(top(th)) + rangei && th.stack == old(th.stack) && $inv(th.stack) && ncalls() == old(ncalls()) && arrid(ls.reg.array) == old(arrid(ls.reg.array)) && top(ls) == old(top(ls)) && unchanged(th.currentFrame) && th.currentFrame.Fn == old(th.currentFrame.Fn)
+//@ loop 2 invariant (forall k int :: 0 <= k && k < old(top(th)) ==> th.reg.array[k] == old(th.reg.array[k])) && (forall k int :: 0 <= k && k < rangei ==> th.reg.array[old(top(th)) + k] == args[k])
 //@ loop 3 invariant Inv_api(ls) && ls.G != nil && (ls.currentFrame != nil ==> ls.currentFrame.Fn != nil) && base(ls) == b0 && top(ls) >= t0 + 1 && idx >= top + 2 && top == t0 - b0 && offset(ret) == 0 && th.stack != nil
 
 // A suspended coroutine whose current frame stopped right after an OP_CALL with a fixed result count C-1 is waiting
